@@ -1,20 +1,20 @@
 SPECIFICATION Spec
 CONSTANTS
-  Stacks <- StacksTimes
-  Outcomes <- Out1
+  Stacks <- StText
+  Outcomes <- Out6
   TagOps <- TagOps2
   Times = {"1", "2"}
-  MaxCalls = 9
-  MaxTests = 1
+  MaxCalls = 11
+  MaxTests = 3
   MaxRuns = 1
   MaxTagOps = 0
-  MaxTimes = 3
+  MaxTimes = 0
   AllowStop = FALSE
   AllowSetFF = FALSE
   AllowSkipNoStart = FALSE
-  AllowDone = TRUE
-  AllowProgress = TRUE
-  PreFF = {FALSE}
+  AllowDone = FALSE
+  AllowProgress = FALSE
+  PreFF = {FALSE, TRUE}
   Coded = {}
 CONSTRAINT ExportC
 INVARIANT Verdict
